@@ -428,3 +428,82 @@ func CheckVerbatim(run *core.Run, prog *load.Program, na *NameAlloc) {
 	// the call site for parameters passes the empty suffix
 	_ = strings.TrimSpace
 }
+
+// CheckVarNameOwners: a parameter's final name is only known once all
+// variables and imports of its method are registered (later ones rename
+// earlier ones through the *Var pointer). So nothing outside the registry may
+// write Var.Name, and nothing but the rendering helpers may read it: a name
+// copied or completed at build time goes stale or escapes the conflict checks.
+func CheckVarNameOwners(run *core.Run, prog *load.Program) {
+	rp := prog.ByPath[load.PkgRegistry]
+	tn, _ := rp.Types.Scope().Lookup("Var").(*types.TypeName)
+	if tn == nil {
+		run.Undecided("G-VARNAME", "role", "internal/registry/var.go", "registry.Var not found")
+		return
+	}
+	st, _ := tn.Type().Underlying().(*types.Struct)
+	var nameField *types.Var
+	for i := 0; st != nil && i < st.NumFields(); i++ {
+		if st.Field(i).Name() == "Name" {
+			nameField = st.Field(i)
+		}
+	}
+	if nameField == nil {
+		run.Undecided("G-VARNAME", "role", "internal/registry/var.go", "registry.Var has no Name field")
+		return
+	}
+	nReads, nWrites := 0, 0
+	funcsOf(prog, func(pkgPath string, info *types.Info, fd *ast.FuncDecl, fn *types.Func) {
+		fname := fn.Pkg().Name() + "." + load.FuncName(fn)
+		lhs := map[ast.Expr]bool{}
+		ast.Inspect(fd.Body, func(n ast.Node) bool {
+			switch s := n.(type) {
+			case *ast.AssignStmt:
+				for _, l := range s.Lhs {
+					lhs[ast.Unparen(l)] = true
+				}
+			case *ast.IncDecStmt:
+				lhs[ast.Unparen(s.X)] = true
+			}
+			return true
+		})
+		ast.Inspect(fd.Body, func(n ast.Node) bool {
+			sel, ok := n.(*ast.SelectorExpr)
+			if !ok || info.ObjectOf(sel.Sel) != nameField {
+				return true
+			}
+			if lhs[sel] {
+				nWrites++
+				run.Check("G-VARNAME/writers", fname, prog.Pos(sel.Pos()), pkgPath == load.PkgRegistry, fname+" assigns Var.Name outside the registry: the name then bypasses the import/variable conflict checks of its scope (two variables can end up with one name)")
+				if pkgPath == load.PkgRegistry {
+					return true
+				}
+			}
+			nReads++
+			okRead := pkgPath == load.PkgRegistry || (pkgPath == load.PkgTemplate && fn.Name() == "Name")
+			run.Check("G-VARNAME/readers", fname, prog.Pos(sel.Pos()), okRead, fname+" reads Var.Name while the data is still being built: a later variable or import of the same method can rename this one, so a copied name goes stale (the template must read names through the *Var at render time)")
+			return true
+		})
+	})
+	// the accessor of the template package is only called from the template package itself (render helpers)
+	funcsOf(prog, func(pkgPath string, info *types.Info, fd *ast.FuncDecl, fn *types.Func) {
+		if pkgPath == load.PkgTemplate || pkgPath == load.PkgRegistry {
+			return
+		}
+		ast.Inspect(fd.Body, func(n ast.Node) bool {
+			if call, ok := n.(*ast.CallExpr); ok {
+				if cf, ok := typeutil.Callee(info, call).(*types.Func); ok && cf.Pkg() != nil && cf.Pkg().Path() == load.PkgTemplate {
+					switch load.FuncName(cf) {
+					case "ParamData.Name", "ParamData.CallName", "ParamData.MethodArg", "MethodData.ArgList", "MethodData.ArgCallList", "MethodData.ReturnArgNameList":
+						run.Check("G-VARNAME/readers", fn.Pkg().Name()+"."+load.FuncName(fn)+"→"+load.FuncName(cf), prog.Pos(call.Pos()), false, load.FuncName(fn)+" renders names ("+load.FuncName(cf)+") while the data is still being built")
+					}
+				}
+			}
+			return true
+		})
+	})
+	run.Count("var_name_reads", nReads)
+	run.Count("var_name_writes", nWrites)
+	run.Floor("G-VARNAME/writers", 2)
+	run.Floor("G-VARNAME/readers", 2)
+}
